@@ -161,7 +161,7 @@ int main(int argc, char **argv) {
   Gen G(r);
   Out o(argv[3]);
   o.note("C12 tier=" + std::string(argv[1]) + " seed=" + argv[2]);
-  int n = thorough ? 4000 : 300;
+  int n = thorough ? 20000 : 1000;
   for (int i = 0; i < n; i++) pair_case(o, G, thorough);
   d13_witness(o);
   o.note("pairs=" + S(n_pairs) + " shared_vertices_compared=" + S(n_shared) + " grid_checks=" + S(n_grid));
